@@ -116,13 +116,14 @@ def cands : List String → Val → R (List (Option Val))
       | _ :: _ => cands ps ((dget p fs).getD (.doc []))
     | _ => .ok [none]         -- no field inside null or a scalar: the key is missing here
 
-/-- a key the model follows: non-empty components only -/
+/-- a key without empty components (`''`, `'a.'`, `'.b'`, `'a..b'` have one).  The matcher makes no
+    difference any more (`candsKey`); the update paths (MongoModel.Update) still follow only these. -/
 def keyOk (key : String) : Bool := (splitDots key).all (· ≠ "")
 
+/-- `iter_key_candidates(key, doc)`: every dot-separated component of the key, the empty one
+    included, is a field name (`''` is the field named `''`, `'a.'` the field `''` inside `a`). -/
 def candsKey (key : String) (d : Val) : R (List (Option Val)) :=
-  if key = "" then .ok [some d]
-  else if !keyOk key then unmodelled
-  else cands (splitDots key) d
+  cands (splitDots key) d
 
 /-! ### helpers.get_value_by_dot (without `can_generate_array`) -/
 
